@@ -12,6 +12,11 @@ NOTE_COMMON = ("Trusted: Go type checker and go/ssa construction (x/tools v0.29.
 
 # id -> (technique, level text, design_ref)
 CLAIMS = {
+ "C01": ("lockset dataflow ({Free,Held}, inter-procedural) + critical-section typestate (retire / lookup-register / pop) + who-may-call census of callback kinds",
+         "Schedule-independent structural obligations: queue state is touched only with the queue lock held; emptiness re-check and unregistering, lookup and "
+         "register/append, non-empty check and pop are each one critical section; callbacks run with the lock released; every callback kind is reachable only "
+         "through the per-group enqueue function with the routed group id. With a correct mutex these imply per-group exclusion for every interleaving; the "
+         "value of the group id for a given name is C06's and is not decided here.", "DESIGN.md section 4 C01"),
  "C04": ("flag-sensitive must-reply typestate over SSA CFGs + who-may-write/publish census",
          "Path-universal structural obligations: on every CFG path of request processing (handlers as havoc: reply 0/1 times, return or panic) "
          "library code replies exactly once; reply funnel guarded by the replied flag; recover closure replies iff not replied; every response "
